@@ -30,6 +30,26 @@ def table(name, shape):
     return AT(ax, d)
 
 
+def check_obs_gather(G):
+    """input, value and every observed parameter of a batch are gathered with the SAME mini-batch of row indices"""
+    gen = G.obs(eq_keys=('nu', 'th'))
+    new, batch = freeze(gen).obs_batch()
+    pred, k2, s2, i2 = spec_step(gen.fields['key'], gen.fields['indices'], gen.fields['curr_idx'], K('bo'), K('n_obs'), None)
+    mb = Sym('dynamic_slice', fz(s2), (fz(i2),), (fz(K('bo')),))
+    if set(batch.keys()) != {"pinn_in", "val", "eq_params"}:
+        raise Violation("batch keys", str(sorted(batch.keys())), "['eq_params', 'pinn_in', 'val']")
+    from .C09 import wild_keys
+    mb = wild_keys(mb)
+    g_ = lambda v: wild_keys(fz(v))
+    expect_same(g_(batch["pinn_in"]), Sym('gather', Sym('obs_in'), mb), "batch['pinn_in']")
+    expect_same(g_(batch["val"]), Sym('gather', Sym('obs_val'), mb), "batch['val']")
+    if set(batch["eq_params"].keys()) != {'nu', 'th'}:
+        raise Violation("eq_params keys", str(sorted(batch['eq_params'].keys())), "['nu', 'th']")
+    for k in ('nu', 'th'):
+        expect_same(g_(batch["eq_params"][k]), Sym('gather', Sym(f'obs_{k}'), mb), f"batch['eq_params'][{k!r}]")
+    return "pinn_in, val and every observed parameter gathered with the same mini-batch of indices on axis 0"
+
+
 def run(chk):
     G = GenEnv(chk.repo)
     chk.files = G.w.files
@@ -40,23 +60,7 @@ def run(chk):
     chk.rule("C15.R4", "multi-network loader pairs tables by key; one aligned batch per network, empty entry without observations", floor=3)
 
     # ---------------- R1 gather
-    def go_gather():
-        gen = G.obs(eq_keys=('nu', 'th'))
-        new, batch = freeze(gen).obs_batch()
-        pred, k2, s2, i2 = spec_step(gen.fields['key'], gen.fields['indices'], gen.fields['curr_idx'], K('bo'), K('n_obs'), None)
-        mb = Sym('dynamic_slice', fz(s2), (fz(i2),), (fz(K('bo')),))
-        if set(batch.keys()) != {"pinn_in", "val", "eq_params"}:
-            raise Violation("batch keys", str(sorted(batch.keys())), "['eq_params', 'pinn_in', 'val']")
-        from .C09 import wild_keys
-        mb = wild_keys(mb)
-        g_ = lambda v: wild_keys(fz(v))
-        expect_same(g_(batch["pinn_in"]), Sym('gather', Sym('obs_in'), mb), "batch['pinn_in']")
-        expect_same(g_(batch["val"]), Sym('gather', Sym('obs_val'), mb), "batch['val']")
-        if set(batch["eq_params"].keys()) != {'nu', 'th'}:
-            raise Violation("eq_params keys", str(sorted(batch['eq_params'].keys())), "['nu', 'th']")
-        for k in ('nu', 'th'):
-            expect_same(g_(batch["eq_params"][k]), Sym('gather', Sym(f'obs_{k}'), mb), f"batch['eq_params'][{k!r}]")
-        return "pinn_in, val and every observed parameter gathered with the same mini-batch of indices on axis 0"
+    go_gather = lambda: check_obs_gather(G)
     chk.run("C15.R1", f"{MOD}:DataGeneratorObservations.obs_batch", {}, go_gather, construct="aligned gather")
 
     # ---------------- R1 constructor
